@@ -9,13 +9,19 @@
 (* TABLE (json):                                                           *)
 (*   valid[i]  1 / 0   text i parses as a Value                            *)
 (*   hash[i]   class number of recon_hash(text i)   (0 = the hasher panicked) *)
-(*   mvalid[i], mnf[i], msv[i], mhev[i]   M: expected validity, normal form class, classes of the shifted forms, hash event class *)
-(*   rows[r] = <<a, b, cmp, veq>>   cmp = compare_recon_values(a, b) (1/0, 9 = panic)        *)
+(*   mvalid[i], mnf[i], mhev[i]   M: expected validity, normal form class, hash event class *)
+(*   rows[r] = <<a, b, cmp, veq, mc>>  cmp = compare_recon_values(a, b) (1/0, 9 = panic)     *)
 (*                                  veq = parse(a) == parse(b) (1/0, 2 = not both valid)     *)
+(*                                  mc = M's comparator on the pair (1/0, 2 = not simulated) *)
+(* First pass (INIT SimInit, NEXT SimNext, INVARIANT SimReport), TABLE = { sim: [[row, eventsA, eventsB]] }:          *)
+(* TLC runs the transcription of the comparator on the parse events of the chosen pairs.    *)
 (*   chunk    rows are evaluated in chunks of this many (one initial state per chunk)        *)
 (* Two texts are the same string iff a = b (texts are deduplicated).       *)
 (***************************************************************************)
 EXTENDS Integers, Sequences, TLC, Json, IOUtils
+
+\* the mechanism model (only its constant-level operators are used here)
+RC == INSTANCE ReconCompare WITH Wide <- FALSE, v <- 0, gen <- 0, st <- 0, cor <- "none"
 
 T == ndJsonDeserialize(IOEnv.TABLE)[1]
 NR == Len(T.rows)
@@ -31,10 +37,10 @@ HashEq(r) == T.hash[A(r)] = T.hash[B(r)]
 \* M
 MBothValid(r) == T.mvalid[A(r)] = 1 /\ T.mvalid[B(r)] = 1
 MVeq(r) == IF MBothValid(r) THEN (IF T.mnf[A(r)] = T.mnf[B(r)] THEN 1 ELSE 0) ELSE 2
-InSeq(x, s) == \E i \in 1..Len(s) : s[i] = x
-\* the comparator: equal normal forms, or one is a "left shift" of the other (ReconCompare!LeftShifts)
+\* the comparator: rows[r][5] = the verdict of the transcription RC!CompareEvents on the parse events of the two
+\* texts where the first pass (Simulate, below) ran it; 2 = not simulated: equal normal forms <=> equal
 MCmp(r) == IF MBothValid(r)
-             THEN (IF T.mnf[A(r)] = T.mnf[B(r)] \/ InSeq(T.mnf[B(r)], T.msv[A(r)]) \/ InSeq(T.mnf[A(r)], T.msv[B(r)]) THEN 1 ELSE 0)
+             THEN (IF T.rows[r][5] # 2 THEN T.rows[r][5] ELSE IF T.mnf[A(r)] = T.mnf[B(r)] THEN 1 ELSE 0)
              ELSE (IF A(r) = B(r) THEN 1 ELSE 0)
 MHashEq(r) == T.mhev[A(r)] = T.mhev[B(r)]
 
@@ -53,12 +59,13 @@ InvalidIsStringEquality(bv, cmp, same) == (~bv) => ((cmp = 1) <=> same)
 \* a panic is no answer
 NoPanic(cmp, ha, hb) == cmp \in {0, 1} /\ ha # 0 /\ hb # 0
 
-VARIABLES law, row, ok, mok
-vars == <<law, row, ok, mok>>
+VARIABLES law, row, ok, mok,
+          cs      \* first pass only: the state of the comparator loop (RC!CmpStep); 0 in the second pass
+vars == <<law, row, ok, mok, cs>>
 \* one initial state per chunk of rows: `row` holds the chunk number until a law instance is evaluated
-Init == law = "init" /\ row \in Chunks /\ ok = TRUE /\ mok = TRUE
+Init == law = "init" /\ row \in Chunks /\ ok = TRUE /\ mok = TRUE /\ cs = 0
 Fresh == law = "init"
-Eval(l, r, o, m) == law' = l /\ row' = r /\ ok' = o /\ mok' = m
+Eval(l, r, o, m) == law' = l /\ row' = r /\ ok' = o /\ mok' = m /\ cs' = cs
 
 EvalEqualValuesCompareEqual == Fresh /\ \E r \in RowsOf(row) :
     /\ BothValid(r) /\ Veq(r) = 1
@@ -81,6 +88,15 @@ EvalConform == Fresh /\ \E r \in RowsOf(row) :
 
 Next == \/ EvalEqualValuesCompareEqual \/ EvalDistinctValuesCompareUnequal \/ EvalCompareEqualImpliesHashEqual
         \/ EvalInvalidIsStringEquality \/ EvalNoPanic \/ EvalConform
+
+\* ---- first pass: the transcription of incremental_compare / ValueValidator on the parse events of chosen pairs ----
+SimInit == law = "sim" /\ row \in 1..Len(T.sim) /\ ok = TRUE /\ mok = TRUE /\ cs = RC!CmpStart
+\* one iteration of the loop of incremental_compare per step
+SimStep == /\ law = "sim" /\ cs.res = "run"
+           /\ cs' = RC!CmpStep(T.sim[row][2], T.sim[row][3], cs)
+           /\ UNCHANGED <<law, row, ok, mok>>
+SimNext == SimStep
+SimReport == (cs.res # "run") => PrintT(<<"SIM", ToJson([row |-> T.sim[row][1], cmp |-> RC!CompareResult(cs)])>>)
 
 \* INVARIANT: always TRUE; prints the law instances the real code breaks and the rows where M differs from the code
 Report == /\ ok \/ PrintT(<<"FAIL", ToJson([law |-> law, row |-> row, m |-> mok])>>)
